@@ -16,6 +16,7 @@ import importlib
 import json
 import multiprocessing
 import os
+import signal
 import sys
 import time
 import traceback
@@ -30,6 +31,17 @@ MAX_SAMPLES = 5
 
 class HarnessError(Exception):
     pass
+
+
+class CaseTimeout(BaseException):
+    pass
+
+
+class _StopShrink(BaseException):
+    pass
+
+
+CASE_TIMEOUT_S = 60
 
 
 def _digest(obj) -> bytes:
@@ -65,6 +77,7 @@ class Ctx:
         self.violations = {}   # sig -> dict(sig,msg,case,size)
         self.known_hits = Counter()
         self.muted = False
+        self.timeouts = 0
         self.notes = []
 
     # ---- counting ----
@@ -142,13 +155,25 @@ def hyp_run(ctx, strategy, body, n, shrink_calls=400, shrink_seconds=15.0, label
         return
     found_here = set()
 
+    def _alarm(signum, frame):
+        raise CaseTimeout()
+
     def run_body(case):
+        # a single generated case normally takes milliseconds; one that is still running after CASE_TIMEOUT_S is
+        # reported as suspected non-termination of the code under test (the alarm cannot fire for any other reason)
+        if ctx.timeouts >= 3:
+            return []       # the shard already demonstrated non-termination three times; do not sit through more
+        limit = CASE_TIMEOUT_S if not ctx.timeouts else 15
+        old = signal.signal(signal.SIGALRM, _alarm)
+        signal.setitimer(signal.ITIMER_REAL, limit)
         try:
             return list(body(case))
-        except hypothesis.errors.HypothesisException:
-            raise
-        except HarnessError:
-            raise
+        except CaseTimeout:
+            ctx.timeouts += 1
+            return [("non-termination:%s" % (label or ctx.prop), "a single case was still running after %ds" % limit)]
+        finally:
+            signal.setitimer(signal.ITIMER_REAL, 0)
+            signal.signal(signal.SIGALRM, old)
 
     @seed(ctx.hseed)
     @settings(max_examples=n, database=None, deadline=None, phases=[Phase.generate],
@@ -162,7 +187,12 @@ def hyp_run(ctx, strategy, body, n, shrink_calls=400, shrink_seconds=15.0, label
 
     collect()
 
-    for sig in sorted(found_here):
+    t_all = time.time()
+    if shrink_seconds <= 0:
+        found_here = set()
+    for n_shrunk, sig in enumerate(sorted(found_here)):
+        if n_shrunk >= 4 or time.time() - t_all > 3 * shrink_seconds:
+            break       # many signatures at once (typically one root cause): keep the unshrunk cases for the rest
         calls = [0]
         best = [None]
 
@@ -175,8 +205,8 @@ def hyp_run(ctx, strategy, body, n, shrink_calls=400, shrink_seconds=15.0, label
         @given(strategy)
         def shrink(case):
             calls[0] += 1
-            if best[0] is not None and (calls[0] > n + shrink_calls or time.time() - t_shrink > shrink_seconds):
-                return      # shrink budget spent: the smallest failing case seen so far is kept
+            if calls[0] > n + shrink_calls or time.time() - t_shrink > shrink_seconds:
+                raise _StopShrink()      # shrink budget spent: the smallest failing case seen so far is kept
             for s, _ in run_body(case):
                 if s == sig:
                     best[0] = case
@@ -186,7 +216,7 @@ def hyp_run(ctx, strategy, body, n, shrink_calls=400, shrink_seconds=15.0, label
         t_shrink = time.time()
         try:
             shrink()
-        except _Found:
+        except (_Found, _StopShrink):
             pass
         except Exception:   # shrinking is best-effort; the unshrunk case is already recorded
             ctx.notes.append("shrink of %s failed: %s" % (sig, traceback.format_exc(limit=2)))
